@@ -52,6 +52,9 @@ type scriptT struct {
 	Gate bool `json:"gate"`
 	// the hub's report of a completed handshake takes this many milliseconds (a slow application)
 	HoldComplete int `json:"holdComplete"`
+	// the hub hears of a connection's hello-ok this many milliseconds late (used to demonstrate a known finding, not by the
+	// generated scripts)
+	HoldHello int `json:"holdHello"`
 }
 
 type evT struct {
@@ -299,6 +302,7 @@ type node struct {
 	gateOn       bool
 	gateBase     int
 	holdComplete time.Duration
+	holdHello    time.Duration
 	connBase     int
 }
 
@@ -560,6 +564,7 @@ func runScript(s scriptT) obsT {
 		n.px = newProxy(fmt.Sprintf("127.0.0.1:%d", ports[name]))
 		n.px.slow = time.Duration(s.SlowDial) * time.Millisecond
 		n.holdComplete = time.Duration(s.HoldComplete) * time.Millisecond
+		n.holdHello = time.Duration(s.HoldHello) * time.Millisecond
 		hn := name
 		n.px.onOpen = func() { l.add(hn, "StreamOpen", "") } // a stream towards hub hn: its peer dialled
 		n.prov = &provider{n: n}
